@@ -685,6 +685,37 @@ fn case(i: usize, seed: u64, acc: &mut Acc) {
         );
       }
     }
+    // every version manifest the build really loaded (not a cache-only
+    // existence probe) and that has no lockfile entry is recorded - also when
+    // the package is reached only through https URLs into the registry and
+    // the requested file itself fails
+    for e in log.iter() {
+      if !e.specifier.ends_with("_meta.json") || !e.answer.starts_with("module:") || e.cache_setting == "only" {
+        continue;
+      }
+      if c.tampered.as_deref() == Some(e.specifier.as_str()) {
+        continue;
+      }
+      // https://jsr.io/@scope/name/1.0.0_meta.json
+      let rest = e.specifier.trim_start_matches(REG);
+      let parts: Vec<&str> = rest.split('/').collect();
+      if parts.len() != 3 {
+        continue;
+      }
+      let nvs = format!("{}/{}@{}", parts[0], parts[1], parts[2].trim_end_matches("_meta.json"));
+      // ... provided the build went on to request a file of that version
+      // (a manifest that lists no usable checksum for the requested file is
+      // dropped before anything of the package is used)
+      let file_prefix = format!("{}{}/{}/{}/", REG, parts[0], parts[1], parts[2].trim_end_matches("_meta.json"));
+      if !log.iter().any(|x| x.specifier.starts_with(&file_prefix)) {
+        acc.count("version_manifest_loaded_but_no_file_requested");
+        continue;
+      }
+      acc.count("version_manifest_loads_checked_for_recording");
+      if !c.lock_pkg.contains_key(&nvs) && !pkg_sets.contains_key(&nvs) {
+        acc.violation("K5/new-manifest-not-recorded/loaded-manifest", nvs, w(json!({})));
+      }
+    }
     // manifests of packages in the graph without lockfile entry are recorded
     for nv in graph.packages.mappings().values() {
       let nvs = nv.to_string();
